@@ -339,9 +339,11 @@ func (g *gen) writeStatementIOManip(b *buffer, n *a.IOManip, depth uint32) error
 	}
 	name := e.Ident().Str(g.tm)
 
-	// TODO: do these variables need to be func-scoped (bigger scope)
-	// instead of block-scoped (smaller scope) if the coro_susp_point
-	// switch can jump past this initialization??
+	// These variables can be block-scoped (smaller scope) instead of
+	// func-scoped (bigger scope) because the coro_susp_point switch cannot
+	// jump past this initialization: lang/check rejects suspension points
+	// (and rets and jumps out of the block, which would skip the code at the
+	// end of this function that restores the saved state) inside the body.
 	b.writes("{\n")
 	switch n.Keyword() {
 	case t.IDIOBind:
